@@ -153,6 +153,7 @@ def run(ctx):
         _arith(ctx, cfg, prog, mod)
         _idxguard(ctx, cfg, prog, mod)
         _idxcmp(ctx, cfg, prog, mod)
+        _capalloc(ctx, cfg, prog, mod)
         _callban(ctx, cfg, prog, mod)
         _finite(ctx, cfg, prog, mod)
         _assertgate(ctx, cfg, prog, mod)
@@ -575,6 +576,47 @@ def _arith(ctx, cfg, prog, mod):
                        len(lst), kinds, ent[0], ent[1], len(lst) - ent[0], [l for _, _, l, _ in lst][:10]), site=site)
         else:
             ctx.ob('ARITH', root, cfg, True, '%d site(s) <= %d classified: %s' % (len(lst), ent[0], ent[1]), site=site)
+
+
+# ------------------------------------------------------------------------------------------ CAPALLOC
+def _capalloc(ctx, cfg, prog, mod):
+    """CAPALLOC (after fix F29): `Vec::with_capacity(n)` / `reserve(n)` panic ("capacity overflow") or abort when `n`
+    elements cannot be allocated.  In the point generators `n` is the caller's `n_points`: an infallible allocation whose
+    size is a `usize` parameter of an exported generator (directly or through a copy) is banned there; `try_reserve*` with a
+    typed error, or a size that went through the memory-cap arithmetic of the grid generator, is what remains."""
+    ctx.rule('CAPALLOC', 'the point generators never size an infallible allocation with the caller-supplied point count')
+    n = 0
+    gens = 0
+    for q, b in sorted(prog.bodies.items()):
+        if '::tests::' in q or b.file != 'src/geometry/util/point_generation.rs':
+            continue
+        if b.kind != 'closure' and b.exported:
+            gens += 1
+        for bb, t in b.calls():
+            name = (t.callee or t.resolved or '')
+            last = name.rsplit('::', 1)[-1]
+            if last not in ('with_capacity', 'reserve', 'reserve_exact') or 'try_' in last:
+                continue
+            n += 1
+            arg = t.args[-1] if t.args else None
+            direct = False
+            if arg is not None and arg.place is not None and arg.place.is_local():
+                l = arg.place.local
+                for _ in range(4):
+                    if 1 <= l <= b.nargs and b.locals[l] == 'usize':
+                        direct = True
+                        break
+                    d = b.single_def(l)
+                    if d is None or d[1] == 'term' or d[2].rv.k != 'use' or not d[2].rv.ops or d[2].rv.ops[0].place is None:
+                        break
+                    l = d[2].rv.ops[0].place.local
+            ctx.ob('CAPALLOC', '%s|%s' % (b.root or q, last), cfg, not direct,
+                   '%s is sized by a derived value' % last if not direct else
+                   '%s(n_points): an impossible point count (usize::MAX) panics with "capacity overflow" instead of a typed error' % last,
+                   site='%s:%d' % (b.file, t.line))
+    ctx.floor('exported point generators', 4, gens, cfg)
+    ctx.ob('CAPALLOC', 'summary', cfg, True, '%d infallible allocation call(s) in the point-generation module, none sized by a parameter' % n,
+           nontrivial=False)
 
 
 # ------------------------------------------------------------------------------------------ IDXCMP
